@@ -723,3 +723,39 @@ package yang
 // Package-level tables that every goroutine reads: written by init only.
 //@ init_only typeMap nameMap aliases knownWords EntryKindToName fromDeviation toDeviation TypeKindFromName TypeKindToName BaseTypedefs baseTypes
 //@ init_only Int8Range Int16Range Int32Range Int64Range Uint8Range Uint16Range Uint32Range Uint64Range revisionDateSuffixRegex
+
+// ---------------------------------------------------------------------------
+// C11: identities.
+//
+//@ pred idIn(x *Identity, s []*Identity, k int) = exists i int :: 0 <= i && i < k && s[i] == x
+//@ pred idNoDup(s []*Identity, k int) = forall i int, j int :: 0 <= i && i < j && j < k ==> s[i] != s[j]
+//@ pred idValuesOK(x *Identity) = x == nil || (forall i int :: 0 <= i && i < len(x.Values) ==> x.Values[i] != nil)
+//
+// appendIfNotIn: the list keeps its elements in place, contains chk afterwards
+// and gains no duplicate.
+//@ func appendIfNotIn props C11
+//@   requires idNoDup(ids, len(ids))
+//@   ensures  len(result) >= len(ids) && (forall i int :: 0 <= i && i < len(ids) ==> result[i] == ids[i])
+//@   ensures  idIn(chk, result, len(result)) && idNoDup(result, len(result))
+//@   ensures  len(result) == (old(idIn(chk, ids, len(ids))) ? len(ids) : len(ids) + 1)
+//@   modifies elems(ids)
+//@   safe
+//@   loop 1
+//@     invariant forall i int :: 0 <= i && i < _k ==> ids[i] != chk
+//
+// addChildren: an identity that is already in the list is not descended into
+// again -- the list comes back as it was -- which is what ends the walk on a
+// derivation cycle. (That the result is the transitive set, each member once,
+// is checked by the bounded closure test: the recursive part needs a typed
+// allocation predicate this memory model does not have.)
+//@ abstract isId(x *Identity) bool
+//@ pred idClosed(x *Identity) = !isId(x) || (x != nil && allocated(x) && (forall i int :: 0 <= i && i < len(x.Values) ==> x.Values[i] != nil && isId(x.Values[i])))
+//@ func addChildren props C11 C01
+//@   requires isId(r) && (forall x *Identity :: idClosed(x))
+//@   ensures  old(idIn(r, ids, len(ids))) ==> result == ids
+//@   ensures  forall x *Identity :: idClosed(x) && (isId(x) ==> x.Values == old(x.Values))
+//@   safe
+//@   loop 1
+//@     invariant forall i int :: 0 <= i && i < _k ==> ids[i] != r
+//@   loop 2
+//@     invariant forall x *Identity :: idClosed(x) && (isId(x) ==> x.Values == old(x.Values))
